@@ -122,7 +122,7 @@ def hist_family(prop, tier, runs, crash_phases, crash_note, conform, assumptions
                 if not take:
                     undecided += 1
             if take:
-                mine.append({"key": v["key"], "what": v["what"], "engine": "e3", "args": [a for a in m["args"] if a not in ("--small",)][:1] + [f for f in m["args"] if f in ("--fs", "--text", "--flush", "@nodbg")],
+                mine.append({"key": v["key"], "what": v["what"], "engine": "e3", "args": [a for a in m["args"] if a not in ("--small",)][:1] + [f for f in m["args"] if f in ("--fs", "--text", "--flush", "--refusals", "@nodbg")],
                              "case": {"history": v["history"], "step": v["step"] & 0xFFF}})
         # the engine lists the first three cases per key and counts the rest
         for (p, k), n in m["counts"].items():
@@ -204,6 +204,8 @@ def chain_extras(*fs):
 
 def check_c02(tier):
     runs = [(["--fs"], 4, False), (["--fs"], 5, True)] if tier == "quick" else [(["--fs"], 5, False), (["--fs"], 7, True)]
+    # refused installations (8 kinds) at every position: they must leave every live fake in effect
+    runs.append((["--fs", "--refusals"], 3 if tier == "quick" else 4, True))
     return hist_family("C02", tier, runs, crash_phases=(1, 2),
                        crash_note="A process death while calling functions or after the injector went away counts as a violation of C02.",
                        conform=(["--fs"], 4 if tier == "thorough" else 3, False),
